@@ -76,6 +76,12 @@ var lineFaults = []faultKind{
 	{"unexpected-token-in-directive", "@if(1 2)x@end", false, 0},
 	{"unexpected-token-each", "@each(q of [1])x@end", false, 0},
 	{"bad-integer-literal", "{{ 99999999999999999999 }}", false, 0},
+	// the fault lies in the operand of a postfix operator written on a later line, or of a prefix operator written on an earlier one
+	{"undefined-identifier-under-later-postfix", "{{ nope9\n ++ }}", true, 0},
+	{"unknown-function-under-later-postfix", "{{ 5.nofn()\n\n -- }}", true, 0},
+	{"unknown-property-under-later-postfix", "{{ {a: 1}.b\r\n ++ }}", true, 0},
+	{"undefined-identifier-under-earlier-prefix", "{{ -\n nope9 }}", true, 1},
+	{"undefined-identifier-under-earlier-not", "{{ !\n\n nope9 }}", true, 2},
 	// the offending token sits on a later line of a construct that spans lines
 	{"unexpected-token-after-newline-in-array", "{{ [1, 2\n 3] }}", false, 1},
 	{"unexpected-token-after-newline-in-directive", "@if(7\n 8)x@end", false, 1},
